@@ -354,6 +354,9 @@ def _do_cut(asm, toks, block, tmpl_line):
         if tk[0] == 'replace':
             text = _apply_replace(text, tk, hits, no)
     for tk, lines_, no in secs:
+        if tk[0] == 'opaque_unsafe':
+            text = extract.r12_unsafe_blocks(text, hits)
+    for tk, lines_, no in secs:
         if tk[0] == 'desugar_for':
             text = desugar_for(text, 0, int(tk[1]), tk[2] if len(tk) > 2 else 'it', hits)
     m = mask(text)
@@ -372,7 +375,7 @@ def _do_cut(asm, toks, block, tmpl_line):
     fname = kv.get('rename', kv.get('name', kv.get('label', 'slice')))
     for tk, lines_, no in secs:
         t0 = tk[0]
-        if t0 in ('replace', 'desugar_for'):
+        if t0 in ('replace', 'desugar_for', 'opaque_unsafe'):
             continue
         if t0 == 'mutate':
             mutations.append((tk[1], tk[2], no))
